@@ -13,7 +13,7 @@ CHECKS = {
     'C12': dict(engine='cbmc', technique='bounded model checking (CBMC/SAT): differential harness of the real is_job_invalid()/is_job_invalid_light() against an independent constraint catalogue over a fully symbolic descriptor; ring entry harness for "never processed"',
                 text='Soundness AND completeness of the parameter validator over every descriptor (all 64-bit field values, every NULL/non-NULL pattern): rejected iff a documented constraint is violated, errno names a violated constraint, descriptor unchanged; invalid verdict at SUBMIT_JOB/SUBMIT_BURST means no stage call, INVALID_ARGS status, ring intact. Counterexamples are replayed through IMB_SUBMIT_JOB on a library built from the current tree.',
                 note='Trusted: CBMC; the catalogue (cbmc/jobcheck.c) as the reading of the documentation; SGL lists <= 2 segments.', ref='DESIGN.md §4 C12'),
-    'C14': dict(engine='cbmc', technique='bounded model checking (CBMC/SAT) of error.c (all 2^32 codes), cipher_suite_id.c, and the ring entry points with descriptor snapshots; L1 for exact final status',
+    'C14': dict(engine='cbmc+asmx', technique='bounded model checking (CBMC/SAT) of error.c (all 2^32 codes), cipher_suite_id.c, and the ring entry points with descriptor snapshots; L1 for exact final status; symbolic sweep (asmx/z3) of every .asm routine with an IMB_JOB* parameter: descriptor bytes outside status keep their value on every path',
                 text='imb_get_strerror is total over all ints and every library code has its own message; set/get errno laws; every ring entry point leaves errno 0 on success and the failure code otherwise from any stale value; every caller-owned field of every ring job is unchanged by any entry point; a job handed back has status exactly COMPLETED or an error status (L1).',
                 note='Trusted: CBMC; K1/K3 stubs; writes made inside assembly managers are the asmx write-set obligation (C04).', ref='DESIGN.md §4 C14'),
     'C20': dict(engine='cbmc', technique='bounded model checking (CBMC/SAT) of the real self_test.c with a symbolic corruption subset, and of the init wrappers on an arbitrary CPU',
@@ -54,7 +54,7 @@ def main():
              'kind_free_text': 'own path-wise symbolic executor over z3 for the machine code of nasm/gcc objects rebuilt from /repo (objdump front end)'},
         ],
         'checks': checks,
-        'notes': 'Every check rebuilds what it needs from /repo\'s current tree in a scratch directory. Exit 0 held / 1 VIOLATION / 2 inconclusive (never counted as held). '
+        'notes': 'Every check rebuilds what it needs from /repo\'s current tree in a scratch directory. Exit 1 = VIOLATION, else 0; obligations without a verdict are printed as INCONCLUSIVE and recorded in the evidence, never counted as held (2 only if nothing reached a verdict). '
                  'Fixed defects and known findings: known_findings.txt. See DESIGN.md.',
         'not_applicable': [{'property_id': k, 'reason': v} for k, v in sorted(na.items()) if k not in CHECKS],
     }
